@@ -368,3 +368,24 @@ func (c *Ctx) FnByName(name string) *Fn {
 	}
 	return nil
 }
+
+// MustPassBefore: every path from the function entry to an occurrence of target passes an occurrence of via
+// first ("what target hands out was produced on the way").  One obligation per target occurrence.
+func (f *Fn) MustPassBefore(rule string, target, via Matcher) bool {
+	ts := f.need(rule, target, "every path to "+target.Desc+" passes "+via.Desc)
+	if len(ts) == 0 {
+		return false
+	}
+	vs := f.Find(via)
+	ok := true
+	for i, t := range ts {
+		what := fmt.Sprintf("every path from entry to %s #%d passes %s", target.Desc, i+1, via.Desc)
+		if p, _ := f.search(nil, []Loc{t}, vs); p != nil {
+			f.C.Fail(rule, f.Where(), what, f.At(t), "reached without it: "+f.pathString(p))
+			ok = false
+		} else {
+			f.C.Pass(rule, f.Where(), what, fmt.Sprintf("%d producing sites", len(vs)))
+		}
+	}
+	return ok
+}
